@@ -102,7 +102,7 @@ struct Sys {
       case 8: return 2 * B - pad;        // exactly fills the first (doubled) block
       case 9: return 2 * B;              // equals the regular size of the first block: padding no longer fits
       case 10: return 4 * B;             // equals the regular size of the second block
-      default: return size_t(1) << 32;   // too large
+      default: return (size_t(1) << 32) + 100;   // too large; its low 32 bits alone would be a valid request
     }
   }
   std::string op_name(int i) const { return raw_name(cfg.raw(i)); }
@@ -516,7 +516,7 @@ int main(int argc, char** argv) {
   }
   c.n("bfs_units_completed_to_depth") += done_cfgs;
   c.strs["bound"] = bound + "<=4 live spans";
-  c.strs["rule"] = "BFS over histories of {alloc(1,2g,B/4,B/2,B-pad,B,0,2^32; growth phase: 1,B/2,B-pad,B,2B-pad,2B,4B), release(#i), shrink(#i,{0,1,half,larger}), write+shrink(#i), reset(soft|hard)} on a real "
+  c.strs["rule"] = "BFS over histories of {alloc(1,2g,B/4,B/2,B-pad,B,0,2^32+100; growth phase: 1,B/2,B-pad,B,2B-pad,2B,4B), release(#i), shrink(#i,{0,1,half,larger}), write+shrink(#i), reset(soft|hard)} on a real "
                    "JitAllocator with 64 KiB blocks; a state is distinct when its canonical form (per pool: block list with flags, search window, largest-unused cache, "
                    "used/stop bit vectors; cursor; empty count; allocation count) was not seen before; the oracle (span model, queries, statistics, fill pattern, "
                    "reuse, empty-block policy, bit-vector cross-check) runs after every transition";
